@@ -29,7 +29,7 @@ CHECKS = {
         "base, single consumer; the delay queue hands out only the element it validated; the event queue skips only a pending "
         "duplicate); and every directory whose changes should reach the stream gets a kernel watch under its current name (the "
         "reader's bookkeeping contract, instances shared with C02); a directory arriving or renamed under a recursive watch carries the complete "
-        "sub-event generator for its descendants; the delay queue's deque is unbounded. Histories x timings x kernel behaviour are not decided.",
+        "sub-event generator for its descendants; the delay queue's deque is unbounded; filesystem calls that raise for a missing path, made on the emitter's or the reader's thread, sit inside a handler for OSError (os.walk is tolerant, os.fwalk is not). Histories x timings x kernel behaviour are not decided.",
         ref="§3/C01",
     ),
     "C02": dict(
@@ -49,7 +49,7 @@ CHECKS = {
         "event synthetic is compared with the sub-event generators; a watch release must be reachable when a directory "
         "leaves the tree. Soundness of every event over whole histories is not decided. "
         "Also: no kernel watch is installed by the reader where the recursive flag is false (events from below a non-recursive watch's children are outside its scope; row shared with C02); "
-        "the synthetic sub-events name each descendant under join(walk root, name) and, for moves, the prefix-anchored rewrite of it (rules shared with C14).",
+        "the synthetic sub-events name each descendant under join(walk root, name) and, for moves, the prefix-anchored rewrite of it (rules shared with C14); every directory in scope gets a kernel watch through a real add-watch (install rows shared with C02).",
         ref="§3/C03",
     ),
     "C04": dict(
@@ -59,13 +59,13 @@ CHECKS = {
         "snapshot keyed by the dequeued watch, re-checks membership against the live registry, under the lock, one dispatch "
         "per iteration; every producer enqueues (event, own watch). Exactly-once as a trace property over schedules follows "
         "only together with RLock/queue.Queue semantics, which are trusted. "
-        "Also: unschedule_all() empties the handler registry wholesale on every normal path (instance shared with C05).",
+        "Also: unschedule_all() empties the handler registry wholesale on every normal path (instance shared with C05); the per-watch handler collection cannot hold a handler twice (a set, or every insertion under a failed membership test).",
         ref="§3/C04",
     ),
     "C05": dict(
         technique="lock-alias analysis + interprocedural must-effect analysis (class-specialised path enumeration)",
         text="Static analysis. Registry removals and the dispatch site hold the same lock object; the re-check reads the live "
-        "registry; on every normal path unschedule/unschedule_all/stop reach stop() and then join() of the affected emitter(s). "
+        "registry; on every normal path unschedule/unschedule_all/stop reach stop() and then an untimed join() of the affected emitter(s). "
         "Also: unschedule_all() empties the handler registry wholesale (clear / fresh container / loop over the registry's own keys), not only the entries of the scheduled watches or of the emitter map.",
         ref="§3/C05",
     ),
@@ -74,7 +74,7 @@ CHECKS = {
         text="Static analysis of the deadlock discipline: acyclic lock order, no join/blocking wait under a lock its waker needs, "
         "every untimed blocking site in a thread body has a waker that stop() must reach after the flag is set, untimed "
         "Condition.wait only inside predicate loops whose predicate the notifiers write, callback lock re-entrant, producers "
-        "never block on the (unbounded) event queue, stop path idempotent, BaseObserver.stop() cannot leave through a failed registry look-up. Thorough tier cross-checks every inlined call edge "
+        "never block on the (unbounded) event queue, stop path idempotent, BaseObserver.stop() cannot leave through a failed registry look-up, every cursor / count-down `while` loop advances on each way round. Thorough tier cross-checks every inlined call edge "
         "against mypy. Liveness under the OS scheduler and anything in user handlers are not decided.",
         ref="§3/C06",
     ),
@@ -85,7 +85,7 @@ CHECKS = {
         "root-deletion branches emit exactly one DirDeletedEvent(root) and stop, and the root keeps its spelling from watch.path to the map key "
         "the emitter compares with; a field the stopping thread clears is read once in the thread body; absorbed failures keep the triggering record. "
         "Completeness of the fallible table is assumed. "
-        "Also: no KeyError from a look-up on the observer's registry maps can escape the dispatcher thread's body (plain dict without a membership test since the last callback).",
+        "Also: no KeyError from a look-up on the observer's registry maps can escape the dispatcher thread's body (plain dict without a membership test since the last callback); filesystem calls on the emitter and reader threads that raise for a missing path are inside OSError handlers; a rename re-keys exactly the directory and its descendants (rows shared with C02).",
         ref="§3/C07",
     ),
     "C08": dict(
@@ -95,14 +95,14 @@ CHECKS = {
         "unmatched MOVED_FROM is delayed; the partner predicate requires non-tuple, MOVED_FROM and cookie equality. Pairing "
         "within the delay (clock values) is not decided. "
         "Also: no iteration of the hand-over loop leaves it (the rest of the read batch would never be handed over); the delay queue's deque is unbounded; "
-        "a partner is deleted in the critical section in which it was found in the live deque.",
+        "a partner is deleted in the critical section in which it was found in the live deque; one layer below, every record decoded by Inotify.read_events is added to the returned list exactly once on every path that goes on to the next record.",
         ref="§3/C08",
     ),
     "C10": dict(
         technique="exception-flow through the recursive snapshot walk (errno-precise) + effect summary of the polling translation",
         text="Static analysis. Every listdir/stat call below the root absorbs ENOENT/ENOTDIR/EACCES at every recursion depth; "
         "the polling emitter maps each of the eight diff lists once to its class, deletions before creations; baseline "
-        "hand-over order under the lock; root-gone branch; snapshot paths are join(<directory listed, as given>, entry name). That a diff is the right diff (C09) is not decided.",
+        "hand-over order under the lock; root-gone branch; snapshot paths are join(<directory listed, as given>, entry name); a loop of the diff computation that takes its own element out of a set ranges over a copy of that set as it stands (not its initial value). That a diff is the right diff (C09) is not decided.",
         ref="§3/C10",
     ),
     "C11": dict(
@@ -111,13 +111,13 @@ CHECKS = {
         "flags the translation needs for that class (derived from the emitter's paths, both modes) and the flags the reader's "
         "bookkeeping needs (derived from read_events) must be contained in what get_event_mask_from_filter provides for that "
         "class (abstractly evaluated, masks folded to integers). "
-        "Also: what InotifyEmitter.queue_events hands to queue_event does not depend on the filter (paths differing only in a filter-dependent condition emit alike, except events of exactly the tested class).",
+        "Also: what InotifyEmitter.queue_events hands to queue_event does not depend on the filter (paths differing only in a filter-dependent condition emit alike, except events of exactly the tested class); a mask given to the reader is stored as given (no flag forced on or off for filtered watches only).",
         ref="§3/C11",
     ),
     "C12": dict(
         technique="two-thread typestate exploration over skeletons sliced from the source; constructor exception-safety and close-chain must-effects",
         text="Static analysis. The close/read hand-over protocol is sliced from Inotify.close/read_events/InotifyBuffer.run and "
-        "its lock-delimited blocks are interleaved exhaustively (use-after-close, double close, leak, blocked forever); "
+        "its lock-delimited blocks are interleaved exhaustively (use-after-close, double close, leak, blocked forever), an iteration of the reader's retry loop that goes round again included; "
         "constructor regions after the first descriptor acquisition must release on failure; the stop/close chain must reach "
         "the release of all three descriptors. Counts against the real kernel are not decided.",
         ref="§3/C12",
@@ -126,7 +126,7 @@ CHECKS = {
         technique="path-sensitive effect summaries over registry operations (failed-call atomicity, coherent effects), identity-method rules",
         text="Static analysis. On every path of schedule() to a call that may raise, the net registry effect so far is empty or "
         "undone; every public mutator's net effect on the four collections is one of the coherent combinations (stop() clears all four on every path); emitter "
-        "construction is guarded by a membership test under the lock; watch equality and hash derive from one key. Equivalence "
+        "construction is guarded by a membership test under the lock; watch equality and hash derive from one key, whose path component is the normalised path (wherever the normalisation is made). Equivalence "
         "with a reference map over all call sequences is not decided.",
         ref="§3/C13",
     ),
@@ -134,7 +134,7 @@ CHECKS = {
         technique="def-use based prefix-rewrite rule (anchored vs occurrence-wide) + generator structure rules",
         text="Static analysis. Every rewrite of a walked path from one directory prefix to another is prefix-anchored and not re-spelled afterwards (an unknown rewrite shape is reported as undecided); the "
         "generators walk top-down, construct Dir classes in the directory loop and File classes in the file loop, mark every "
-        "event synthetic, one yield per iteration. That os.walk lists each descendant once is trusted.",
+        "event synthetic, one yield per iteration; every path through the generators lists the descendants with os.walk (os.fwalk is reported). That os.walk lists each descendant once is trusted.",
         ref="§3/C14",
     ),
     "C15": dict(
@@ -176,7 +176,7 @@ CHECKS = {
         technique="def-use decode-discipline rule over every event-constructor argument of the emitters",
         text="Static analysis. Every path-valued argument of an event constructed by the inotify emitter derives from "
         "_decode_path(native path) (or dirname of it, or the empty literal); _decode_path is conditional on the watch path type; "
-        "Path is normalised to str once; polling paths derive from join(root, entry.name); the watch key carries the stored path itself "
+        "Path is normalised to str (where the path is stored or where it is read); polling paths derive from join(root, entry.name); the watch key carries the stored path itself "
         "(str and bytes spellings are different watches). Round-tripping of undecodable names "
         "is a property of os.fsdecode and is trusted. "
         "Also: the reader's re-key / prune rows (shared with C02): a native path is a wd->path look-up, so the table is updated before the next record of the read is resolved.",
@@ -185,7 +185,7 @@ CHECKS = {
     "C20": dict(
         technique="path-sensitive effect summaries of code that cannot be imported here (Windows, FSEvents) vs contract tables; constant agreement",
         text="Static analysis of the Windows and FSEvents translators (parsed, never imported): per-action emission contracts, "
-        "inode bookkeeping, the three FSEvents predicates as truth tables, the non-recursive FSEvents filter cannot be bypassed, the wiring to "
+        "inode bookkeeping, the three FSEvents predicates as truth tables (against a root stored as realpath of the watch path), the non-recursive FSEvents filter cannot be bypassed, the wiring to "
         "the native layer, the inotify buffer decoder's header-size constants agree "
         "with the unpack format, the Windows buffer walk as a cursor model (record read, name slice, advance, bound against the shortest record computed from the structure's layout), "
         "and the shared sub-event generators (rules of C14). Decoder round-trips for all record sequences are not decided.",
